@@ -283,7 +283,9 @@ func (p *Posix) ListBuckets(_ context.Context, input s3response.ListBucketsInput
 		}
 
 		if len(buckets) == int(input.MaxBuckets) {
-			cToken = buckets[len(buckets)-1].Name
+			if len(buckets) > 0 {
+				cToken = buckets[len(buckets)-1].Name
+			}
 			break
 		}
 
@@ -2117,8 +2119,8 @@ func (p *Posix) ListMultipartUploads(_ context.Context, mpu *s3.ListMultipartUpl
 				Delimiter:          delimiter,
 				KeyMarker:          keyMarker,
 				MaxUploads:         maxUploads,
-				NextKeyMarker:      resultUpds[i-1].Key,
-				NextUploadIDMarker: resultUpds[i-1].UploadID,
+				NextKeyMarker:      resultUpds[len(resultUpds)-1].Key,
+				NextUploadIDMarker: resultUpds[len(resultUpds)-1].UploadID,
 				IsTruncated:        true,
 				Prefix:             prefix,
 				UploadIDMarker:     uploadIDMarker,
